@@ -59,6 +59,7 @@ type runner struct {
 	popTag     string
 	popID      int
 	reads      int // Broker.History calls of the subscribe command seen so far
+	bufWin     []int // offsets handed to the node (in epoch, not lagged) while the subscribe was in its window
 	tickDone   chan struct{}
 	subDone    chan struct{}
 	subID      uint32
@@ -504,6 +505,19 @@ func (r *runner) monitors(out []frame) []verdict {
 				if o < newestVisible {
 					vs = append(vs, verdict{"C03", "not-newest-visible", fmt.Sprintf("cache recovery delivered offset %d while the newest visible publication in history is %d", o, newestVisible)})
 				}
+				if r.filtered(o) {
+					vs = append(vs, verdict{"C03", "excluded-delivered", fmt.Sprintf("cache recovery delivered offset %d, which the subscription's tags filter excludes", o)})
+				}
+			}
+			// publications that reached the node inside the subscribe window (buffered) and are newer than the history top
+			// are part of what the reply chooses from
+			if rep.Recovered && len(rep.Pubs) == 1 {
+				for _, b := range r.bufWin {
+					if b > r.topAtRead && !r.filtered(b) && rep.Pubs[0] < b {
+						vs = append(vs, verdict{"C03", "not-newest-visible:buffered", fmt.Sprintf("cache recovery delivered offset %d although the visible publication %d had reached the node inside the subscribe window", rep.Pubs[0], b)})
+						break
+					}
+				}
 			}
 			newestPresent := len(r.winAtRead) > 0 && newest == r.topAtRead
 			holdsCurrent := sinceOff > 0 && sinceOff == r.topAtRead && vh.Str(since["ep"]) == "e1"
@@ -661,6 +675,9 @@ func (w *worker) run(bi int, beh []map[string]any, res *vh.Result) {
 			}
 			if err := w.gb.Deliver(r.ch, &pub, sp, false, nil); err != nil {
 				drift("deliver: " + err.Error())
+			}
+			if ppc := vh.Str(beh[si-1]["pc"]); (ppc == "g1" || ppc == "g2" || ppc == "g3" || ppc == "gp" || ppc == "g4") && !vh.Bool(step["foreign"]) && !vh.Bool(step["lagged"]) {
+				r.bufWin = append(r.bufWin, int(d.pub.Offset))
 			}
 			if diverged == "" {
 				// goroutines the model spawned in this step: wait until the real ones are parked (a missing one is judged at AsyncEnd)
